@@ -1056,11 +1056,14 @@ func (p *Policy) validURL(rawurl string) (string, bool) {
 		// re-serialising can also change what the URL means: a path such
 		// as /%2Fexample.com/^ is written back as //example.com/%5E, which
 		// names a host, and the result may not even parse. The result is
-		// only used when it reads back with the same scheme and host
+		// only used when it reads back with the same scheme and host, and is
+		// written the same way once more (/%2Fa@^@ is written back as
+		// //a@%5E@, which reads back as user information and would be
+		// written as //a%40%5E@ the next time)
 		normalised := func() (string, bool) {
 			s := strings.TrimSpace(u.String())
 			v, err := url.Parse(s)
-			if err != nil || v.Scheme != u.Scheme || v.Host != u.Host {
+			if err != nil || v.Scheme != u.Scheme || v.Host != u.Host || v.String() != s {
 				return "", false
 			}
 			return s, true
